@@ -590,9 +590,9 @@ func (s *sess) checkAcceptorCtor() {
 		for _, prm := range fn.Params {
 			switch {
 			case an.TypeIs(prm.Type(), "session", "LogonSettings"):
-				settings = prm.Name()
+				settings = an.Render(prm)
 			case an.TypeIs(prm.Type(), "session", "Opts"):
-				params = prm.Name()
+				params = an.Render(prm)
 			}
 		}
 		need := []string{settings + ".HeartBtLimits != nil", settings + ".HeartBtLimits.Min <= " + settings + ".HeartBtLimits.Max", settings + ".HeartBtLimits.Max != 0", settings + ".HeartBtLimits.Min != 0"}
